@@ -926,7 +926,7 @@ def interference_one(ctx, k, bid, interfere=True):
     from deepdiff import DeepDiff, Delta
     from deepdiff.serialization import json_dumps, json_loads
     name, t1, t2, kw = interference_cases()[k]
-    case = {"interference": k, "what": name, "bidirectional": bid}
+    case = {"interference": k, "bidirectional": bid}
     ctx.seen(("interference", k, bid), nontrivial=True)
     ctx.count("interference:cases")
 
@@ -953,8 +953,9 @@ def interference_one(ctx, k, bid, interfere=True):
     if pk1 != pk0:
         ctx.fail(dict(case, stage="pickle-after"), "the pickle dump of the same delta changed after unrelated JSON calls")
     if json.loads(js1) != json.loads(js0):
-        ctx.fail(dict(case, stage="json-after", before=js0[:300], after=js1[:300]),
-                 "the JSON dump of the same delta changed after unrelated to_json / json_dumps calls with a default_mapping (%s)" % name)
+        ctx.fail(dict(case, stage="json-after"),
+                 "the JSON dump of the same delta (%s) changed after unrelated to_json / json_dumps calls with a default_mapping: %s -> %s" % (
+                     name, js0[:160], js1[:160]))
         return
     try:
         beh1 = behaviour(js1)
@@ -962,7 +963,7 @@ def interference_one(ctx, k, bid, interfere=True):
         ctx.fail(dict(case, stage="load-after", error=type(e).__name__), "the JSON dump no longer loads after unrelated JSON calls")
         return
     if beh1 != beh0:
-        ctx.fail(dict(case, stage="behaviour-after", before=repr(beh0)[:300], after=repr(beh1)[:300]),
+        ctx.fail(dict(case, stage="behaviour-after"),
                  "the JSON-persisted delta behaves differently after unrelated JSON calls (%s)" % name)
 
 
@@ -1207,7 +1208,8 @@ def replay(ctx, data):
     logging.disable(logging.CRITICAL)
     case = data.get("case", {})
     if "interference" in case:
-        print("replay: interference case %d (%s), bidirectional=%s" % (case["interference"], case.get("what"), case.get("bidirectional")))
+        print("replay: interference case %d (%s), bidirectional=%s" % (
+            case["interference"], interference_cases()[case["interference"]][0], case.get("bidirectional")))
         interference_one(ctx, case["interference"], case.get("bidirectional", False))
         return
     if "exotic" in case:
@@ -1254,11 +1256,38 @@ def replay(ctx, data):
             ctx.fail(dict(case), "Delta's own dump does not load: %s" % type(e).__name__)
             return
     print("replay: reloaded payload = %r" % (d2.diff,))
-    bad = not typed_payload_eq(d2.diff, d.diff)
+    is_json = case.get("path") == "json"
+    same_payload = typed_payload_eq(d2.diff, d.diff)
+    bad = []
+    if not same_payload and not case.get("set_items"):
+        bad.append(("payload", "the reloaded payload differs from the original"))
     bases = [t1] + ([eval(case["base"])] if "base" in case else [])
     for b in bases:
-        w, g = apply_delta(b, Delta(dd, bidirectional=bid, always_include_values=aiv)), apply_delta(b, d2)
-        print("replay: base %r -> original %r / reloaded %r" % (b, w, g))
-        bad = bad or w != g
-    if bad:
-        ctx.fail(dict(case), "the reloaded delta differs from the original (payload or behaviour)")
+        for sub_ in ([False, True] if bid else [False]):
+            w, g = apply_delta(b, Delta(dd, bidirectional=bid, always_include_values=aiv), sub=sub_), apply_delta(b, _reload_for_replay(case, dd, d, bid, aiv, safe, ctx), sub=sub_)
+            print("replay: base %r %s -> original %r / reloaded %r" % (b, "-" if sub_ else "+", w, g))
+            if w != g:
+                bad.append(("behaviour", "the reloaded delta behaves differently from the original"))
+    for stage, what in bad[:1]:
+        c2 = dict(case, stage=stage)
+        if is_json and stage == "payload":
+            c2["nonetype_only"] = _nonetype_only(d.diff, d2.diff)
+        ctx.fail(c2, what)
+
+
+def _reload_for_replay(case, dd, d, bid, aiv, safe, ctx):
+    from deepdiff import Delta
+    from deepdiff.serialization import json_dumps, json_loads
+    if case.get("path") == "json":
+        text = Delta(dd, bidirectional=bid, always_include_values=aiv, serializer=json_dumps).dumps()
+        return Delta(text, deserializer=json_loads, bidirectional=bid, always_include_values=aiv)
+    src = case.get("source", "bytes")
+    if src in ("file", "path"):
+        fn = os.path.join(ctx.scratch, "replay_delta.bin")
+        with open(fn, "wb") as f:
+            d.dump(f)
+        if src == "path":
+            return Delta(delta_path=fn, bidirectional=bid, always_include_values=aiv, safe_to_import=safe)
+        with open(fn, "rb") as f:
+            return Delta(delta_file=f, bidirectional=bid, always_include_values=aiv, safe_to_import=safe)
+    return Delta(d.dumps(), bidirectional=bid, always_include_values=aiv, safe_to_import=safe)
